@@ -1,4 +1,7 @@
 import Mastverif.Lemmas.RefTickAll
+import Mastverif.Lemmas.RefTickCursor
+import Mastverif.Lemmas.RefTickWF
+import Mastverif.Lemmas.RefCursor
 /-!
 # C16 at the level of node objects (property theorems)
 
@@ -94,6 +97,58 @@ theorem C16_object_level_history (E : Env) (fuel : Nat) (ops : List Op) (uc : Bo
       Sys.budget E fuel { ps := { useCache := uc }, nextId := nid } ops :=
   Sys.run_tick_scratch E fuel ops uc nid hops hl
 
+/-! ## cursor calls (`Model/PtrCursor.lean`)
+
+`PathD s H path`: every node object on the cursor's path is at most `H + 1` levels deep — which
+holds of the path `Cursor()` returns on a tree that denotes a well-formed tree of height `H`
+(`C16_object_level_cursor_path_wf`) and is kept by every call.  Then, for every outcome that
+carries a state, with a node cache or none, under any fault oracle: -/
+
+/-- `Cursor()` reads at most one node (the top node, when the root is a name) -/
+theorem C16_object_level_cursor_open (E : Env) (t : PTree) (newId fuel : Nat) (s : PS) :
+    (∀ r s', cursorNew E t newId fuel s = .ok r s' → s'.tick ≤ s.tick + 1) ∧
+    (∀ s', cursorNew E t newId fuel s = .err s' → s'.tick ≤ s.tick + 1) :=
+  (cursorNew_ts E t newId fuel s).bounds
+
+/-- a placement (`Min` / `Max` / `Ceil`) reads at most one node per level below the top: `≤ H` -/
+theorem C16_object_level_cursor_place (E : Env) (H f : Nat) (path : CPath) (pl : CPlace) (s : PS)
+    (hc : CacheS s) (hp : PathD s H path) :
+    (∀ r s', cPlace E f path pl s = .ok r s' → s'.tick ≤ s.tick + H ∧ PathD s' H r.1 ∧ CacheS s') ∧
+    (∀ s', cPlace E f path pl s = .err s' → s'.tick ≤ s.tick + H) := by
+  have h := cPlace_ts E H f path pl s hc hp
+  exact ⟨fun r s' hok => ⟨(h.ok hok).1, (h.ok hok).2.2, (h.ok hok).2.1.cache hc⟩, fun s' herr => h.err herr⟩
+
+/-- a `Forward` / `Backward` step from ANY position reads at most `H` nodes — never a number
+    proportional to the tree -/
+theorem C16_object_level_cursor_step (E : Env) (H f : Nat) (path : CPath) (mv : CMove) (s : PS)
+    (hc : CacheS s) (hp : PathD s H path) :
+    (∀ r s', cStep E f path mv s = .ok r s' → s'.tick ≤ s.tick + H ∧ PathD s' H r.1 ∧ CacheS s') ∧
+    (∀ s', cStep E f path mv s = .err s' → s'.tick ≤ s.tick + H) := by
+  have h := cStep_ts E H f path mv s hc hp
+  exact ⟨fun r s' hok => ⟨(h.ok hok).1, (h.ok hok).2.2, (h.ok hok).2.1.cache hc⟩, fun s' herr => h.err herr⟩
+
+/-- `Get` reads nothing from the store -/
+theorem C16_object_level_cursor_get (path : CPath) (s : PS) :
+    ∀ r s', cGet path s = .ok r s' → s' = s :=
+  fun _ _ hok => ((cGet_ts path s).ok hok).2.2
+
+/-- a walk of `n` moves: at most `n · H` reads -/
+theorem C16_object_level_cursor_walk (E : Env) (H f : Nat) (ms : List CMove) (path : CPath) (s : PS)
+    (hc : CacheS s) (hp : PathD s H path) :
+    (∀ r s', cWalk E f ms path s = .ok r s' → s'.tick ≤ s.tick + ms.length * H) ∧
+    (∀ s', cWalk E f ms path s = .err s' → s'.tick ≤ s.tick + ms.length * H) :=
+  (cWalk_ts E H f ms path s hc hp).bounds
+
+/-- the hypothesis is met by the path of a fresh cursor on a tree whose top node denotes a
+    well-formed row of height `H` -/
+theorem C16_object_level_cursor_path_wf (layer : Nat → Nat) {w : Nat} (s : PS) (g a H : Nat) (root : T)
+    (hn : NodeRep w s g a root) (hw : T.WF layer H root) : PathD s H [(a, 0)] := by
+  intro x hx
+  rcases List.mem_cons.mp hx with rfl | hx
+  · obtain ⟨fp, h, _, _⟩ := hn
+    exact depthLe_of_wf layer g (.ptr a) _ H h (Or.inr hw)
+  · cases hx
+
 end Mast.Ptr
 #print axioms Mast.Ptr.C16_object_level_open
 #print axioms Mast.Ptr.C16_object_level_clone
@@ -107,3 +162,9 @@ end Mast.Ptr
 #print axioms Mast.Ptr.C16_driver_insert
 #print axioms Mast.Ptr.C16_driver_delete
 #print axioms Mast.Ptr.C16_object_level_history
+#print axioms Mast.Ptr.C16_object_level_cursor_open
+#print axioms Mast.Ptr.C16_object_level_cursor_place
+#print axioms Mast.Ptr.C16_object_level_cursor_step
+#print axioms Mast.Ptr.C16_object_level_cursor_get
+#print axioms Mast.Ptr.C16_object_level_cursor_walk
+#print axioms Mast.Ptr.C16_object_level_cursor_path_wf
